@@ -316,7 +316,7 @@ def check_line(case):
 
 
 SUBCHECKS = [
-    Sub("roundtrip", check, strategy=lambda tier: case_strategy(tier), quick=2000, thorough=50000,
+    Sub("roundtrip", check, strategy=lambda tier: case_strategy(tier), quick=4000, thorough=200000,
         min_share={"fmt:custom": 0.4, "vel": 0.3, "big-number": 0.3, "box:triclinic": 0.2}),
-    Sub("line", check_line, strategy=lambda tier: line_case(), quick=6000, thorough=200000),
+    Sub("line", check_line, strategy=lambda tier: line_case(), quick=12000, thorough=800000),
 ]
